@@ -428,7 +428,9 @@ def Full.step (f : Full) (line : String) : Full :=
   | "leak" =>
     let w := bump f.w
     let extra := parseInt (arg toks "extra")
-    { f with w := if extra > 0 then w.fail "C18" "leak" s!"{extra} store-layer goroutines still running after every store was closed: {arg toks "kinds"}" else w }
+    let w := if extra > 0 then w.fail "C18" "leak" s!"{extra} store-layer goroutines still running after every store was closed: {arg toks "kinds"}" else w
+    let subs := parseInt (arg toks "subs")
+    { f with w := if subs > 0 then w.fail "C18" "leak" s!"{subs} subscription(s) of the underlying pubsub are still open after every store was closed: the node stays on the topic, its peers never see it leave or come back" else w }
   | "dropped" =>
     let w := bump f.w
     let p := peerNum (toks.getD 1 "")
